@@ -19,6 +19,7 @@ import (
 	"verifharness/internal/c20"
 	"verifharness/internal/pc"
 	"verifharness/internal/rcv"
+	"verifharness/internal/rcvgate"
 	"verifharness/internal/rep"
 	"verifharness/internal/sigs"
 	"verifharness/internal/sub"
@@ -41,6 +42,7 @@ var commands = map[string]func(args []string) *rep.Report{
 	"c07": pc.RunReaders,
 	"c08": sub.Run,
 	"c09": rcv.Run,
+	"c16": rcvgate.Run,
 }
 
 func main() {
